@@ -61,6 +61,7 @@ FUNCS = [  # (lean name, file, class, method, translator key, lean type)
     ("allowedEvents", "statemachine/statemachine.py", None, "allowed", "allowed", "St.AllowedScript"),
     ("registry", "statemachine/callbacks.py", None, "registry", "registry", "R.RegScript"),
     ("decl", "statemachine/events.py", None, "decl", "decl", "D.DeclScript"),
+    ("diagram", "statemachine/contrib/diagram.py", None, "diagram", "diagram", "G.DiagramScript"),
 ]
 ASYNC_DEF = {"activateAsync", "triggerAsync", "processAsync", "wrapperDunder", "execAsyncCall", "execAsyncAll"}
 
@@ -1725,6 +1726,143 @@ def tr_decl(repo):
             + ", fromAny := " + from_any + " }")
 
 
+# ----------------------------------------------------------------------------------------- contrib/diagram.py
+
+def tr_diagram(repo):
+    rel = "statemachine/contrib/diagram.py"
+    M = lambda name: method(repo, rel, "DotGraphMachine", name)
+    fn = M("get_graph")
+    env = {}
+    gg = []
+    for x in _body(fn):
+        t = ntext(x, env)
+        m = re.match(r"^(\w+) = self\._get_graph\(\)$", t)
+        if m:
+            bind(env, m.group(1), "GRAPH")
+            gg.append(".newGraph")
+            continue
+        if t == "GRAPH.add_node(self._initial_node())":
+            gg.append(".addInitialNode")
+            continue
+        if t == "GRAPH.add_edge(self._initial_edge())":
+            gg.append(".addInitialEdge")
+            continue
+        if isinstance(x, ast.For) and ntext(x.iter, env) == "self.machine.states" and isinstance(x.target, ast.Name) and not x.orelse:
+            le = dict(env)
+            le[x.target.id] = "STATE"
+            sl = []
+            for b in x.body:
+                bt = ntext(b, le)
+                if bt == "GRAPH.add_node(self._state_as_node(STATE))":
+                    sl.append(".addStateNode")
+                    continue
+                if isinstance(b, ast.For) and ntext(b.iter, le) == "STATE.transitions" and isinstance(b.target, ast.Name) and not b.orelse:
+                    te = dict(le)
+                    te[b.target.id] = "TR"
+                    tb = []
+                    for c in b.body:
+                        ct = ntext(c, te)
+                        k = {"if TR.internal:\n    continue": ".skipInternal",
+                             "GRAPH.add_edge(self._transition_as_edge(TR))": ".addEdge"}.get(ct)
+                        if k is None:
+                            raise Untranslatable(f"get_graph: statement at line {c.lineno} not recognised: {ct!r}")
+                        tb.append(k)
+                    sl.append(".forTransitions [" + ", ".join(tb) + "]")
+                    continue
+                raise Untranslatable(f"get_graph: statement at line {b.lineno} not recognised: {bt!r}")
+            gg.append(".forStates [" + ", ".join(sl) + "]")
+            continue
+        if t == "return GRAPH":
+            gg.append(".ret")
+            continue
+        raise Untranslatable(f"get_graph: statement at line {x.lineno} not recognised: {t!r}")
+    fn = M("_state_as_node")
+    env = {}
+    sn = []
+    for x in _body(fn):
+        t = ntext(x, env)
+        m = re.match(r"^(\w+) = self\._state_actions\(state\)$", t)
+        if m:
+            bind(env, m.group(1), "ACTIONS")
+            sn.append(".actions")
+            continue
+        m = re.match(r"^(\w+) = pydot\.Node\(state\.id, label=f'\{state\.name\}\{ACTIONS\}', shape='rectangle', "
+                     r"style='rounded, filled', fontname=self\.font_name, fontsize=self\.state_font_size, "
+                     r"peripheries=2 if state\.final else 1\)$", t)
+        if m:
+            bind(env, m.group(1), "NODE")
+            sn.append(".mkNode")
+            continue
+        if t == ("if state == self._current_state():\n    NODE.set_penwidth(self.state_active_penwidth)\n"
+                 "    NODE.set_fillcolor(self.state_active_fillcolor)\nelse:\n    NODE.set_fillcolor('white')"):
+            sn.append(".highlightIffCurrent")
+            continue
+        if t == "return NODE":
+            sn.append(".ret")
+            continue
+        raise Untranslatable(f"_state_as_node: statement at line {x.lineno} not recognised: {t!r}")
+    fn = M("_transition_as_edge")
+    env = {}
+    te = []
+    for x in _body(fn):
+        t = ntext(x, env)
+        m = re.match(r"^(\w+) = ', '\.join\(\[str\(X0\) for X0 in transition\.cond\]\)$", t) \
+            or re.match(r"^(\w+) = ', '\.join\(\(str\(X0\) for X0 in transition\.cond\)\)$", t)
+        if m:
+            bind(env, m.group(1), "COND")
+            te.append(".joinGuards")
+            continue
+        if t == "if COND:\n    COND = f'\\n[{COND}]'":
+            te.append(".bracketIfAny")
+            continue
+        if t == ("return pydot.Edge(transition.source.id, transition.target.id, label=f'{transition.event}{COND}', "
+                 "color='blue', fontname=self.font_name, fontsize=self.transition_font_size)"):
+            te.append(".retEdge")
+            continue
+        raise Untranslatable(f"_transition_as_edge: statement at line {x.lineno} not recognised: {t!r}")
+    cs = _stmts(M("_current_state"),
+                {"if getattr(self.machine, 'current_state_value', None) is None:\n    return None": ".noneIfNoValue",
+                 "return self.machine.current_state": ".retCurrentState"}, "_current_state")
+    fn = M("_state_actions")
+    env = {}
+    sa = []
+    for x in _body(fn):
+        t = ntext(x, env)
+        m = re.match(r"^(\w+) = self\._actions_getter\(\)$", t)
+        if m:
+            bind(env, m.group(1), "GETTER")
+            sa.append(".getter")
+            continue
+        k = {"entry = str(GETTER(state.enter))": ".entryOfEnter",
+             "exit_ = str(GETTER(state.exit))": ".exitOfExit",
+             "internal = ', '.join((f'{X0.event} / {str(GETTER(X0.on))}' for X0 in state.transitions if X0.internal))":
+                 ".internalsEventSlashOn",
+             "if entry:\n    entry = f'entry / {entry}'": ".prefixEntry",
+             "if exit_:\n    exit_ = f'exit / {exit_}'": ".prefixExit",
+             "actions = '\\n'.join((X0 for X0 in [entry, exit_, internal] if X0))": ".joinNonEmptyLines",
+             "if actions:\n    actions = f'\\n{actions}'": ".leadingNewlineIfAny",
+             "return actions": ".ret"}.get(t)
+        if k is None:
+            raise Untranslatable(f"_state_actions: statement at line {x.lineno} not recognised: {t!r}")
+        sa.append(k)
+    fn = M("_initial_node")
+    tx = "\n".join(ntext(x) for x in _body(fn))
+    m = re.match(r"^node = pydot\.Node\('(\w+)', shape='circle', style='filled', fontsize='1', fixedsize='true', "
+                 r"width=0\.2, height=0\.2\)\nnode\.set_fillcolor\('black'\)\nreturn node$", tx)
+    if not m:
+        raise Untranslatable(f"_initial_node: {tx!r}")
+    ini = m.group(1)
+    fn = M("_initial_edge")
+    tx = "\n".join(ntext(x) for x in _body(fn))
+    m = re.match(r"^return pydot\.Edge\('(\w+)', (self\.machine\.initial_state\.id), label='', color='blue', "
+                 r"fontname=self\.font_name, fontsize=self\.transition_font_size\)$", tx)
+    if not m:
+        raise Untranslatable(f"_initial_edge: {tx!r}")
+    return ("{\n  getGraph := [" + ", ".join(gg) + "],\n  stateAsNode := [" + ", ".join(sn) + "],\n  transitionAsEdge := ["
+            + ", ".join(te) + "],\n  currentState := " + cs + ",\n  stateActions := [" + ", ".join(sa)
+            + f'],\n  initialNode := "{ini}", initialEdge := ("{m.group(1)}", "{m.group(2)}") }}')
+
+
 TRANSLATORS = {"eventcall": tr_eventcall, "send": tr_send, "start": tr_start, "injected": tr_injected,
                "activate": tr_activate, "trigger": tr_trigger, "process": tr_process, "wrapper": tr_wrapper,
                "executor": tr_executor, "bind": tr_bind,
@@ -1767,6 +1905,9 @@ def translate(repo):
                 continue
             if key == "decl":
                 res[name] = (ty, tr_decl(repo), None)
+                continue
+            if key == "diagram":
+                res[name] = (ty, tr_diagram(repo), None)
                 continue
             if key == "injected":
                 if [ast.unparse(d) for d in fn.decorator_list] != ["property"]:
@@ -1892,6 +2033,13 @@ SELFTEST_EDITS = [
     ("statemachine/state.py", "            new_transition = transition._copy_with_args(source=state, event=event)", "            new_transition = transition._copy_with_args(source=state)"),
     ("statemachine/state.py", "            origin.transitions.add_transitions(transition)\n", ""),
     ("statemachine/events.py", "                if event in self._items:\n                    continue\n", ""),
+    ("statemachine/contrib/diagram.py", "                if transition.internal:\n                    continue\n", ""),
+    ("statemachine/contrib/diagram.py", "            peripheries=2 if state.final else 1,", "            peripheries=2 if state.final and not state.transitions else 1,"),
+    ("statemachine/contrib/diagram.py", "        if state == self._current_state():", "        if state.value == getattr(self.machine, \"current_state_value\", None):"),
+    ("statemachine/contrib/diagram.py", "            transition.source.id,\n            transition.target.id,", "            transition.source.id,\n            transition.target.value,"),
+    ("statemachine/contrib/diagram.py", "        graph.add_edge(self._initial_edge())\n", ""),
+    ("statemachine/contrib/diagram.py", "            label=f\"{transition.event}{cond}\",", "            label=f\"{transition.event}\","),
+    ("statemachine/contrib/diagram.py", "            if transition.internal\n        )", "        )"),
 ]
 
 
@@ -1932,6 +2080,7 @@ import SMV.Src.IRCheck
 import SMV.Src.IRStore
 import SMV.Src.IRReg
 import SMV.Src.IRDecl
+import SMV.Src.IRDiagram
 /-! GENERATED by `harness/srcgen.py --write-expected` from the tree the theorems of `SMV/Src/Tie.lean` were
 proved for. Do not edit by hand. -/
 """
